@@ -735,6 +735,8 @@ pub fn run(run: &mut Run) {
             return;
         }
     }
+    // before anything else in this process family: first use of every mode under contention (fresh processes)
+    run_first_use(run, false);
     let js = jobs(run.seed, run.thorough(), false);
     run.extra.insert("jobs".into(), json!(js.len()));
     if run.thorough() {
@@ -747,12 +749,92 @@ pub fn run(run: &mut Run) {
 pub fn run_c17(run: &mut Run) {
     run.rule = "the C03 enumerations (channel-exhaustive squares, HSL colour grids, uniform and boundary-biased random tuples; same generator) rendered through Frame::image, each also rendered with the top layer in Normal mode. Laws checked per tuple, no reference implementation: alpha(result) = alpha(Normal result); Sa = 0 or opacity product = 0 with Ba > 0 => result = backdrop; Ba = 0 => result is the source colour with alpha mul_un8(Sa, product) (transparent equivalence); Normal, product 255, Sa = 255 => result = source; and no overflow check or debug assertion fires (a panic while rendering is the violation). non-trivial sprite: >= 25% tuples with Ba>0, Sa>0, product>0, or tuples from at least two law premises; distinct by content hash".into();
     run.assumptions = vec!["build with overflow-checks and debug-assertions on (profile 'checked')".into()];
+    run_first_use(run, true);
     let js = jobs(run.seed, run.thorough(), true);
     run.extra.insert("jobs".into(), json!(js.len()));
     run_jobs(run, &js, true);
 }
 
+// ---------------------------------------------------------------- first use under contention
+
+/// Runs in a fresh process (`vcheck --first-use blend <mode> <seed> <c17>`): 16 threads leave a barrier together
+/// and each loads, renders and checks the same probe sprite, so that whatever the library sets up the first time a
+/// blend mode is used in a process is set up under contention. Prints one JSON line.
+pub fn first_use_main(mode: u16, seed: u64, c17: bool) -> ! {
+    let spec = std::sync::Arc::new(spec_random(mode, seed, false));
+    let barrier = std::sync::Arc::new(std::sync::Barrier::new(16));
+    let hs: Vec<_> = (0..16)
+        .map(|_| {
+            let (spec, barrier) = (spec.clone(), barrier.clone());
+            std::thread::Builder::new()
+                .stack_size(8 << 20)
+                .spawn(move || {
+                    barrier.wait();
+                    check_guarded(|| if c17 { check_c17(&spec) } else { check_c03(&spec) })
+                })
+                .unwrap()
+        })
+        .collect();
+    let mut first: Option<Failure> = None;
+    let mut bad = 0;
+    for h in hs {
+        if let Ok(Err(f)) = h.join() {
+            bad += 1;
+            first.get_or_insert(f);
+        }
+    }
+    match first {
+        None => println!("{}", json!({"ok": true})),
+        Some(f) => println!("{}", json!({"ok": false, "threads_failing": bad, "signature": f.signature, "msg": f.msg, "detail": f.detail})),
+    }
+    std::process::exit(0)
+}
+
+/// Parent side of the first-use phase: one fresh process per (mode, repetition), run one after the other so that
+/// the 16 threads of each really start together.
+fn run_first_use(run: &mut Run, c17: bool) {
+    let exe = std::env::current_exe().expect("own executable path");
+    let reps = if run.thorough() { 12 } else { 3 };
+    for m in 0..19u16 {
+        for k in 0..reps {
+            let seed = mix(run.seed, 0xF1257 + ((m as u64) << 8) + k);
+            let out = std::process::Command::new(&exe).arg("--first-use").arg("blend").arg(m.to_string()).arg(seed.to_string()).arg(if c17 { "1" } else { "0" }).output().expect("spawn vcheck --first-use");
+            let line = String::from_utf8_lossy(&out.stdout).lines().last().unwrap_or("").to_string();
+            let case = || json!({"job": "first-use", "mode": m, "seed": seed});
+            let res = match serde_json::from_str::<serde_json::Value>(&line) {
+                Ok(v) if v["ok"] == json!(true) => Ok(Outcome::new(true, mix(seed, m as u64)).label("first-use-under-contention").with_sample(json!({"mode": m, "threads": 16, "fresh_process": true}))),
+                Ok(v) => Err(Failure::new(format!("first-use:{}", v["signature"].as_str().unwrap_or("?")), format!("wrong result when 16 threads use blend mode {} for the first time in a process ({} of 16 threads): {}", m, v["threads_failing"], v["msg"].as_str().unwrap_or("?"))).with(v["detail"].clone())),
+                Err(_) => Err(Failure::new("first-use:process-died", format!("process died while 16 threads used blend mode {} for the first time: status {:?}, stderr {}", m, out.status, String::from_utf8_lossy(&out.stderr).chars().take(300).collect::<String>()))),
+            };
+            run.direct(case, res);
+        }
+    }
+}
+
+fn replay_first_use(case: &serde_json::Value, c17: bool) -> Option<CheckResult> {
+    if case.get("job").and_then(|j| j.as_str()) != Some("first-use") {
+        return None;
+    }
+    let m = case.get("mode").and_then(|x| x.as_u64()).unwrap_or(0);
+    let seed = case.get("seed").and_then(|x| x.as_u64()).unwrap_or(0);
+    let exe = std::env::current_exe().expect("own executable path");
+    // a race is not deterministic: try a number of fresh processes
+    for _ in 0..40 {
+        let out = std::process::Command::new(&exe).arg("--first-use").arg("blend").arg(m.to_string()).arg(seed.to_string()).arg(if c17 { "1" } else { "0" }).output().expect("spawn");
+        let line = String::from_utf8_lossy(&out.stdout).lines().last().unwrap_or("").to_string();
+        match serde_json::from_str::<serde_json::Value>(&line) {
+            Ok(v) if v["ok"] == json!(true) => {}
+            Ok(v) => return Some(Err(Failure::new(format!("first-use:{}", v["signature"].as_str().unwrap_or("?")), v["msg"].as_str().unwrap_or("?").to_string()))),
+            Err(_) => return Some(Err(Failure::new("first-use:process-died", format!("{:?}", out.status)))),
+        }
+    }
+    Some(Ok(Outcome::new(true, 0)))
+}
+
 pub fn replay(case: &serde_json::Value) -> CheckResult {
+    if let Some(r) = replay_first_use(case, false) {
+        return r;
+    }
     let j = job_from_json(case).ok_or_else(|| Failure::new("bad-replay", "no job in replay file"))?;
     if let Job::Stack(sd) = j {
         return check_guarded(|| check_stack(sd, false));
@@ -761,6 +843,9 @@ pub fn replay(case: &serde_json::Value) -> CheckResult {
 }
 
 pub fn replay_c17(case: &serde_json::Value) -> CheckResult {
+    if let Some(r) = replay_first_use(case, true) {
+        return r;
+    }
     let j = job_from_json(case).ok_or_else(|| Failure::new("bad-replay", "no job in replay file"))?;
     if let Job::Stack(sd) = j {
         return check_guarded(|| check_stack(sd, true));
